@@ -899,6 +899,18 @@ func (ch c16) Run(c *core.Ctx) {
 		select {
 		case <-done:
 			c.Count("close_after_accept_loop_ended", 1)
+			// Close is as final as ever: a query on the connection accepted before the accept loop ended
+			// reaches no callback
+			e.closeReturned.Store(true)
+			cl.C.Send(pg.Query("after-close on a connection accepted before " + what))
+			cl.C.Quiesce()
+			for i := 0; i < 50 && e.running.Load() > 0; i++ {
+				time.Sleep(time.Millisecond)
+			}
+			c.Count("post_close_queries", 1)
+			if v := e.viol.Load(); v != nil {
+				c.Violate("finality", normDigits(*v), "Close called after "+what+" (Serve had returned): "+*v, nil)
+			}
 		case <-time.After(30 * time.Second):
 			dump, lib := core.ClassifyHang()
 			if len(lib) > 0 {
